@@ -188,6 +188,9 @@ structure Agree (N : NumOps) (E : EvalOps N) : Prop where
   idiv_def : ∀ a b, N.idiv a b = N.floor (N.div a b)
   mod_def : ∀ a b, N.mod a b = N.sub a (N.mul b (N.floor (N.div a b)))
   coerce : ∀ s x y, coerceString E s = some x → N.ofStr s = some y → x = y
+  /-- where the evaluator formats a number at all (plain notation, ≤ 14 significant digits), Rust's text is
+  the semantics' `tostring` text -/
+  fmt : ∀ x t, luaNumberToString E x = some t → N.toStr x = t
 
 theorem mathOp_arith {E : EvalOps N} (A : Agree N E) {op : BinOp} {f : N.F → N.F → N.F} (h : mathOp op = some f)
     (x y : N.F) : arithPrim op x y = f x y := by
@@ -343,14 +346,17 @@ theorem evaluateMath_sound {E : EvalOps N} (A : Agree N E) {call : CallFn N} {ρ
 
 theorem strCoerce_cases {E : EvalOps N} {v : LuaValue N} {a : Val N} {s : List UInt8} (hv : VM v a)
     (hc : v.stringCoercion E = .string s) :
-    (a = .str s ∧ v = .string s) ∨ ∃ x, a = .num x ∧ v = .number x ∧ E.fmtRust x = s := by
+    (a = .str s ∧ v = .string s) ∨ ∃ x, a = .num x ∧ v = .number x ∧ luaNumberToString E x = some s := by
   cases v <;> simp only [LuaValue.stringCoercion] at hc <;> try (cases hc; done)
-  · cases hc; exact Or.inr ⟨_, hv, rfl, rfl⟩
+  · rename_i x
+    split at hc
+    · rename_i t ht
+      cases hc; exact Or.inr ⟨_, hv, rfl, ht⟩
+    · cases hc
   · cases hc; exact Or.inl ⟨hv, rfl⟩
 
-theorem evaluateConcat_sound {E : EvalOps N} {call : CallFn N} {ρ : ExtOracle N} {d : Nat}
+theorem evaluateConcat_sound {E : EvalOps N} (A : Agree N E) {call : CallFn N} {ρ : ExtOracle N} {d : Nat}
     {vl vr : LuaValue N} {a b w : Val N} {σ σ' : State N} (hl : VM vl a) (hr : VM vr b)
-    (hok : concatOK E vl vr = true)
     (h : binopVal call ρ d .concat a b σ = .ok w σ') : VM (evaluateBinary E .concat vl vr) w := by
   simp only [evaluateBinary]
   split
@@ -365,15 +371,13 @@ theorem evaluateConcat_sound {E : EvalOps N} {call : CallFn N} {ρ : ExtOracle N
       · simp [toStringPrim?] at hx; exact hx.symm
       · simp only [toStringPrim?] at hx
         cases hx
-        rcases c2 with ⟨_, rfl⟩ | ⟨_, _, rfl, _⟩ <;>
-          simp [concatOK, isStrOrNum, numFmtOK] at hok <;> simp_all
+        exact A.fmt _ _ hf
     have e2 : y = s2 := by
       rcases c2 with ⟨rfl, rfl⟩ | ⟨n, rfl, rfl, hf⟩
       · simp [toStringPrim?] at hy; exact hy.symm
       · simp only [toStringPrim?] at hy
         cases hy
-        rcases c1 with ⟨_, rfl⟩ | ⟨_, _, rfl, _⟩ <;>
-          simp [concatOK, isStrOrNum, numFmtOK] at hok <;> simp_all
+        exact A.fmt _ _ hf
     subst e1 e2
     rfl
   · trivial
